@@ -64,6 +64,10 @@ type World struct {
 
 	Queue *RecQueue
 	Hooks *HookClient
+
+	// RelatedRefs (set by the adapters when the customize manager gets a real informer
+	// factory): open subscriptions per "resource.apiVersion" of that factory.
+	RelatedRefs func() map[string]int
 }
 
 // NewWorld builds a world with empty store and empty caches.
